@@ -385,6 +385,9 @@ def call_np(interp, name, args, kwargs, lineno):
     if name == 'isscalar':
         x = args[0]
         return isinstance(x, (Rat, bool, str))
+    if name == 'finfo':
+        from .interp import AForeign
+        return AForeign('finfo', ('eps', 'tiny', 'smallest_normal', 'resolution', 'max', 'min'))
     if name in ('isinf', 'isnan', 'isfinite', 'isneginf', 'isposinf'):
         # the properties quantify over finite data: symbolic values are finite real numbers (recorded as an assumption)
         v = Rat.const(1 if name == 'isfinite' else 0)
